@@ -290,6 +290,29 @@ def run(ctx, col, tier):
               norm_src(bf) if bf is not None else "", "bf is not the constant 0: PointsToMST would not build a minimum spanning tree",
               stmt="bf0", definite=isinstance(bf, ast.Constant) and isinstance(bf.value, (int, float)))
 
+    # --- distances are taken from coordinate differences, not from squared norms of the positions
+    col.rule("R-DIST", "edge lengths are computed from coordinate differences (translation invariant in floating point): no Gram-matrix expansion "
+             "|a|^2 + |b|^2 - 2 a.b over the absolute positions, whose rounding error is of the order ulp(|a|^2) and swamps the edge lengths of a cloud that "
+             "lies far from the origin relative to its point spacing (the greedy choice then runs on wrong distances)", floor=1)
+    gram = None
+    for n in own_nodes(d):
+        if isinstance(n, ast.BinOp) and isinstance(n.op, ast.MatMult) and norm_src(n.left).split(".")[0] == "points" and norm_src(n.right).split(".")[0] == "points":
+            gram = n
+        if isinstance(n, ast.Call):
+            fnm = (dotted(n.func) or "").rsplit(".", 1)[-1]
+            argn = [norm_src(a).split(".")[0].split("[")[0] for a in n.args]
+            if fnm in ("dot", "inner", "matmul", "tensordot", "einsum") and argn.count("points") >= 2:
+                gram = n
+            if fnm == "dot" and isinstance(n.func, ast.Attribute) and norm_src(n.func.value).split(".")[0] == "points" and argn[:1] == ["points"]:
+                gram = n
+    if gram is not None:
+        col.bad("R-DIST", q, d.loc(gram), "pairwise distances come from coordinate differences",
+                f"`{norm_src(gram)[:70]}` multiplies the absolute positions with themselves (Gram matrix): |a-b|^2 is then a small difference of large numbers; "
+                f"for a float32 cloud a few thousand units from the origin with a spacing of ten the edge lengths are lost in the rounding of |a|^2, and the "
+                f"tree that is built is not the minimum / balanced spanning tree of the points", stmt="gram", definite=True)
+    else:
+        col.ok("R-DIST", q, d.loc(), "pairwise distances come from coordinate differences", "no product of the positions with themselves", stmt="gram")
+
     # --- the constructor keeps the caller's options as given (table over the values the statement distinguishes)
     col.rule("R-KEEP", "the constructor stores the branching limit and the root exemption exactly as given: every positive limit k (1 = no branching, 2, 3, ...) "
              "and the 'no limit' value -1 reach the attachment loop unchanged (the stored expression is folded at k = 1, 2, 3, 7, -1 and at both flags)", floor=2, exhaustive=True)
